@@ -31,6 +31,9 @@ func VerifStreamerEventToConnectorEvent(e *Event) (*ConnectorEvent, error) {
 	return streamerEventToConnectorEvent(e)
 }
 
+// VerifNewConnectorStreamer is the receiver a connector consumer process reads from: it keeps one hasher for its lifetime.
+func VerifNewConnectorStreamer(cc ConnectorConsumer) EventReceiver { return newConnectorStreamer(cc) }
+
 func VerifFilterByRunState(rs RunState) EventFilter { return filterByRunState(rs) }
 func VerifFilterByRunID(id string) EventFilter      { return filterByRunID(id) }
 func VerifFilterByForeignID(id string) EventFilter  { return filterByForeignID(id) }
